@@ -66,6 +66,7 @@ type OracleSet struct {
 	ExtAuth         bool // C18: protected paths are intercepted or denied
 	OrderIndep      bool // C06: permuted fresh pipelines == canonical fresh pipeline
 	CrossNS         bool // C09: denied cross-namespace references have no influence
+	Gateway         bool // C10: Gateway API admission reference vs configuration
 	Property        string
 }
 
@@ -445,6 +446,9 @@ func (r *Run) syncPoint(note string) {
 	}
 	if r.or.CrossNS {
 		r.checkCrossNamespace()
+	}
+	if r.or.Gateway {
+		r.checkGateway()
 	}
 	if r.or.Routing {
 		r.checkRouting()
